@@ -75,8 +75,9 @@ func VerifC32DivMod() {
 		vr.Assert("c32.div.error-iff-zero", (err != nil) == (b == 0))
 		if err == nil {
 			q := verifTop(cx)
-			// q = floor(a/b)  <=>  q*b <= a < (q+1)*b
-			vr.Assert("c32.div.value", len(cx.Stack) == 1 && vr.ZU(q).Mul(vr.ZU(b)).Le(vr.ZU(a)) && vr.ZU(q).Add(vr.ZU(1)).Mul(vr.ZU(b)).Gt(vr.ZU(a)))
+			// q = floor(a/b)  <=>  0 <= a - q*b < b
+			rem := vr.ZU(a).Sub(vr.ZU(q).Mul(vr.ZU(b)))
+			vr.Assert("c32.div.value", len(cx.Stack) == 1 && rem.Ge(vr.ZU(0)) && rem.Lt(vr.ZU(b)))
 		}
 	}
 	{
@@ -121,7 +122,7 @@ func VerifC32Compare() {
 	vr.Reach("done")
 }
 
-//verif:harness prop=C32 reach=done values=80 unwind=80
+//verif:harness prop=C32 reach=done
 func VerifC32Bitwise() {
 	a, b := vr.U64("a"), vr.U64("b")
 	{
@@ -134,42 +135,56 @@ func VerifC32Bitwise() {
 		cx = verifCx1(a)
 		vr.Assert("c32.bitnot", opBitNot(cx) == nil && len(cx.Stack) == 1 && vr.ZU(verifTop(cx)).Add(vr.ZU(a)).Eq(vr.ZU(^uint64(0))))
 	}
+	vr.Reach("done")
+}
+
+// Shifts: the shift amount is case-split (0..65) so each case is a shift by a
+// constant; amounts above 65 are covered by one fully symbolic case.
+//
+//verif:harness prop=C32 reach=done,big unwind=80
+func VerifC32Shifts() {
+	a := vr.U64("a")
+	if vr.Bool("bigshift") {
+		b := vr.U64("b")
+		vr.Assume(b > 63)
+		vr.Assert("c32.shl.error-when-64-or-more", opShiftLeft(verifCx2(a, b)) != nil)
+		vr.Assert("c32.shr.error-when-64-or-more", opShiftRight(verifCx2(a, b)) != nil)
+		vr.Reach("big")
+		vr.Reach("done")
+		return
+	}
+	n := vr.Choice("n", 64)
+	b := uint64(n)
 	{
 		cx := verifCx2(a, b)
 		err := opShiftLeft(cx)
-		vr.Assert("c32.shl.error-iff-64-or-more", (err != nil) == (b > 63))
-		if err == nil {
-			// (a * 2^b) mod 2^64: check bit by bit through exact arithmetic on a small case split of b
-			n := int(b)
-			want := vr.ZU(a).Shl(n).U64Trunc()
-			vr.Assert("c32.shl.value", len(cx.Stack) == 1 && verifTop(cx) == want)
-		}
+		want := vr.ZU(a).Shl(n).U64Trunc() // (a * 2^n) mod 2^64
+		vr.Assert("c32.shl", err == nil && len(cx.Stack) == 1 && verifTop(cx) == want)
 	}
 	{
 		cx := verifCx2(a, b)
 		err := opShiftRight(cx)
-		vr.Assert("c32.shr.error-iff-64-or-more", (err != nil) == (b > 63))
-		if err == nil {
-			n := int(b)
-			want := vr.ZU(a).Shr(n).U64Trunc()
-			vr.Assert("c32.shr.value", len(cx.Stack) == 1 && verifTop(cx) == want)
-		}
+		want := vr.ZU(a).Shr(n).U64Trunc() // floor(a / 2^n)
+		vr.Assert("c32.shr", err == nil && len(cx.Stack) == 1 && verifTop(cx) == want)
 	}
-	{
-		cx := verifCx1(a)
-		err := opBitLen(cx)
-		l := verifTop(cx)
-		// bitlen(a) = l  <=>  a < 2^l and (l == 0 or a >= 2^(l-1))
-		ok := err == nil && l <= 64
-		vr.Assert("c32.bitlen.range", ok)
-		if ok {
-			n := int(l)
-			vr.Assert("c32.bitlen.upper", vr.ZU(a).Lt(vr.ZU(1).Shl(n)))
-			if n > 0 {
-				vr.Assert("c32.bitlen.lower", vr.ZU(a).Ge(vr.ZU(1).Shl(n-1)))
-			}
-		}
+	vr.Reach("done")
+}
+
+// bitlen: the input space is partitioned by the expected answer n:
+// a == 0 for n == 0, otherwise 2^(n-1) <= a < 2^n.
+//
+//verif:harness prop=C32 reach=done unwind=80
+func VerifC32BitLen() {
+	a := vr.U64("a")
+	n := vr.Choice("n", 65)
+	if n == 0 {
+		vr.Assume(a == 0)
+	} else {
+		vr.Assume(vr.ZU(a).Ge(vr.ZU(1).Shl(n-1)) && vr.ZU(a).Lt(vr.ZU(1).Shl(n)))
 	}
+	cx := verifCx1(a)
+	err := opBitLen(cx)
+	vr.Assert("c32.bitlen", err == nil && len(cx.Stack) == 1 && verifTop(cx) == uint64(n))
 	vr.Reach("done")
 }
 
@@ -199,7 +214,8 @@ func VerifC32Wide() {
 		vr.Assert("c32.divw.error", (err != nil) == (c == 0 || tooBig))
 		if err == nil {
 			q := verifTop(cx)
-			vr.Assert("c32.divw.value", len(cx.Stack) == 1 && vr.ZU(q).Mul(vr.ZU(c)).Le(num) && vr.ZU(q).Add(vr.ZU(1)).Mul(vr.ZU(c)).Gt(num))
+			rem := num.Sub(vr.ZU(q).Mul(vr.ZU(c)))
+			vr.Assert("c32.divw.value", len(cx.Stack) == 1 && rem.Ge(vr.ZU(0)) && rem.Lt(vr.ZU(c)))
 		}
 	}
 	vr.Reach("done")
@@ -224,12 +240,21 @@ func VerifC32Conversions() {
 			vr.Assert("c32.btoi.value", len(cx.Stack) == 1 && cx.Stack[0].Bytes == nil && vr.ZU(cx.Stack[0].Uint).Eq(vr.ZBytes(in)))
 		}
 	}
-	{
-		cx := verifCx1(a)
-		err := opSqrt(cx)
-		r := verifTop(cx)
-		// r = floor(sqrt(a))  <=>  r*r <= a < (r+1)*(r+1)
-		vr.Assert("c32.sqrt", err == nil && len(cx.Stack) == 1 && vr.ZU(r).Mul(vr.ZU(r)).Le(vr.ZU(a)) && vr.ZU(r).Add(vr.ZU(1)).Mul(vr.ZU(r).Add(vr.ZU(1))).Gt(vr.ZU(a)))
-	}
+	vr.Reach("done")
+}
+
+// sqrt: the 32-round digit recurrence is if-converted into one formula; the
+// operand is bounded (quick: < 2^16, thorough: < 2^32) so that r*r <= a < (r+1)^2
+// stays within reach of bit-blasting. Larger operands are outside this claim.
+//
+//verif:harness prop=C32 reach=done unwind=40 budget=200
+func VerifC32Sqrt() {
+	a := vr.U64("a")
+	vr.Assume(a < 1<<uint(vr.Param(16, 32)))
+	cx := verifCx1(a)
+	err := opSqrt(cx)
+	r := verifTop(cx)
+	vr.Assert("c32.sqrt.lower", err == nil && len(cx.Stack) == 1 && vr.ZU(r).Mul(vr.ZU(r)).Le(vr.ZU(a)))
+	vr.Assert("c32.sqrt.upper", vr.ZU(r).Add(vr.ZU(1)).Mul(vr.ZU(r).Add(vr.ZU(1))).Gt(vr.ZU(a)))
 	vr.Reach("done")
 }
